@@ -17,7 +17,8 @@ LEVEL_TEXT = ("Theorems in Coq: (1) for any sequential object, if the committed 
               "coordinator restarts; each completed write's response is compared with the sequential specification at its WAL position, each "
               "read must equal the state after a committed prefix of the serving node's log that is recent enough when served by the current "
               "leader and that stays a prefix of every later leader's log; no operation may appear twice in a log.")
-LEVEL_NOTE = ("Partial: after a minority disk loss the next leader can serve reads that miss an acknowledged write (C01's open finding "
+LEVEL_NOTE = ("Partial: a node whose applied entries were rolled back by a later leader (figure 8) keeps its database commit offset; when it is elected again BecomeLeader builds the quorum tracker from that offset, beyond its log head, and writes up to that offset are acknowledged with no copy on any follower and can be lost (open finding figure8:database-commit-offset-beyond-log-head, scripted: corpus/cluster/10-stale-commit-offset-after-rollback.case; the loss of such a write is attributed to it); "
+              "after a minority disk loss the next leader can serve reads that miss an acknowledged write (C01's open finding "
               "diskloss:acked-write-lost-after-minority-disk-loss, reproduced; the theorems are for executions in which every node keeps its disk); the rolled-back-read clause is false of the protocol as implemented (open finding, figure 8); ensemble changes and the "
               "single truncate round inherit C01's open findings, the snapshot-prefix findings as well. The sequential object used by the run-time "
               "check is the versioned key-value map of server/kv/db.go for single-key puts/conditional puts/deletes/delete-ranges and "
